@@ -203,7 +203,7 @@ def stream (nm : Path → Bytes) (fs : FS) : List Path → Bytes
   | [] => []
   | p :: l => nm p ++ contentOf fs p ++ stream nm fs l
 
-/-- `binary.BigEndian.PutUint64`: 8 bytes, most significant first.  (The first entry is `n / 2^56`
+/-- what `binary.Write(…, binary.BigEndian, uint64)` writes: 8 bytes, most significant first.  (The first entry is `n / 2^56`
 without `% 256`: it IS the top byte for every `n < 2^64`, i.e. for every length the code can
 produce, and keeps `be64` injective on all of `Nat` without a side condition.) -/
 def be64 (n : Nat) : Bytes :=
